@@ -41,7 +41,7 @@ MaybeNonMinimal(b) == \E i \in 1..(Len(b) - 1) : b[i] >= 128 /\ b[i + 1] = 0
 \* Frames built by the harness from labelled segments (valid encodings, legal spellings, catalogue edits that keep
 \* every field where it was) contain minimal var-ints by construction; for byte-level mutations and edits that
 \* re-interpret the body (another type nibble, another remaining length) the conservative byte-pair test decides.
-Reinterpreting == {"mutation", "hdr_type", "rl_short", "rl_long", "rl_zero", "varint5"}
+Reinterpreting == {"mutation", "hdr_type", "rl_short", "rl_long", "rl_zero", "varint5", "nonminimal-proplen"}
 InQuantifier(e) == CompleteFrame(e.bytes) /\ (e.origin \in Reinterpreting => ~MaybeNonMinimal(e.bytes))
 OK04(e) ==
     InQuantifier(e) =>
@@ -122,6 +122,8 @@ LenientOverrun(e) ==
        /\ Len(e.reenc.bytes) - e.consumed = DecVarIntAt(e.reenc.bytes, 2).w - d.w
 OK11(e) ==
     /\ e.reenc.k = "ok"
+    \* (re-encoding through the async encoder into a socket-like sink yields the same bytes)
+    /\ (Has(e, "reenc_async") => e.reenc_async.res.k = "ok" /\ e.reenc_async.same)
     /\ OkPkt(e.redec_block, e.packet) /\ OkPkt(e.redec_async, e.packet) /\ OkPkt(e.redec_poll, e.packet)
     /\ \/ Len(e.reenc.bytes) <= e.consumed
        \/ (LenientOverrun(e) /\ AcceptedAsKnown("C11_LENIENT_OVERRUN", e))
@@ -174,7 +176,7 @@ OK13(e) ==
     /\ \A i \in 1..Len(e.fronts) :
         LET f == e.fronts[i] IN
         /\ IsErrE(f.res, "UnexpectedProtocol") /\ f.res.a = <<found>>
-        /\ (f.front = "async" => f.pos <= AfterProto(e.bytes))     \* consumed no more than name and level
+        /\ (f.front \in {"async", "async-whole"} => f.pos <= AfterProto(e.bytes))   \* consumed no more than name and level
         /\ OkPkt(f.resume, e.native_packet)
 FamilyOf(pv) == IF pv = "V500" THEN "v5" ELSE "v3"
 TableRow(res, fam, e) ==
